@@ -96,7 +96,11 @@ func phHash(parts ...interface{}) [32]byte {
 // body builds the concrete message for abstract (d, id, attrs).
 func (r *phRun) body(a map[string]interface{}) *vhVAA {
 	d, id := vhStr(a, "d"), vhStr(a, "id")
-	hi := phHash("id|", r.sc, "|", id)
+	eid := id
+	if e := vhStr(a, "eid"); e != "" {
+		eid = e // same emitter (chain, address, target) as message id `e`, another sequence number
+	}
+	hi := phHash("id|", r.sc, "|", eid)
 	hd := phHash("d|", r.sc, "|", d)
 	v := &vhVAA{Version: 1}
 	v.EChain = uint16(vhInt(a, "chain", 2))
